@@ -384,8 +384,8 @@ def _instance_job(job):
 
 def sweep_instances(ctx, dist, reported):
     rng = ctx.rng
-    n_random = 200 if ctx.quick else 3000
-    n_target = 240 if ctx.quick else 4000
+    n_random = 200 if ctx.quick else 5000
+    n_target = 240 if ctx.quick else 6000
     seen = set()
     work = []
     for _ in range(n_random):
@@ -799,7 +799,7 @@ def run(ctx):
     sweep_instances(ctx, dist, reported)
     sweep_mirp(ctx, dist, reported)
     rng = ctx.rng
-    n_corr = 150 if ctx.quick else 1500
+    n_corr = 150 if ctx.quick else 3000
     descs = []
     for k in range(n_corr):
         descs.append(targeted(rng)[1] if k % 2 else fh.random_instance(rng))
